@@ -103,6 +103,12 @@ def check_decaps(rep, prog):
                     pkt = tsref.ts_packet(tei=tei, pusi=pusi, cc=cc, has_payload=has_payload, has_af=has_af, af_len=af_len,
                                           disc=disc, rai=rai, pcr=pcrv if pcr else None)
                     one_decaps(R, prog, u, fn, pkt, last_cc, lastkind, full=True)
+    # continuity sweep: every (last counter, counter) pair, wrap-around included
+    for last_cc in range(16):
+        for cc in range(16):
+            for has_af, af_len in ((0, 0), (1, 7)):
+                pkt = tsref.ts_packet(cc=cc, has_payload=1, has_af=has_af, af_len=af_len)
+                one_decaps(R, prog, u, fn, pkt, last_cc, 'other' if cc == last_cc else None, full=True)
     # truncated packets: only the safety clauses
     for size in (0, 1, 3, 4, 5, 6, 11, 12, 100):
         for has_af, af_len, disc, rai, pcr in af_variants():
@@ -176,6 +182,10 @@ def one_decaps(R, prog, u, fn, pkt, last_cc, lastkind, full):
                 return '%s flag is %s on the output, expected %s' % (what, bool(attrs.get(key)), bool(exp))
         if m.f.get('last_cc') != d['cc']:
             return 'last continuity counter is %s after the packet, expected %d' % (m.f.get('last_cc'), d['cc'])
+        if last_cc != -1 and not (af_on and d.get('disc')):
+            exp_lost = 16 if dup else ((d['cc'] - last_cc - 1) & 15)
+            if m.f.get('lost') != exp_lost:
+                return 'lost-packet count is %s after counter %d -> %d, expected %d' % (m.f.get('lost'), last_cc, d['cc'], exp_lost)
         if af_on and d.get('has_pcr') and 'pcr' in d:
             thr = [e for e in m.events if e[0] == 'throw' and e[1] == 'upipe_throw_clock_ref']
             val = d['pcr'][0] * 300 + d['pcr'][1]
@@ -369,8 +379,14 @@ def check_pesd(rep, prog):
     variants.append(('opt', 0xe0, PTS, None, 5, 'zero', 'badmarker'))
     for sid in (0xbf, 0xf0, 0xbe):
         variants.append(('plain', sid, None, None, 0, 'exact', 'ok'))
-    for kind, sid, pts, dts, hl, lenk, dmg in variants:
-        npay = 7
+    # streams without optional header carrying very short packets (PES_packet_length 1, 2, 3) or an unbounded one
+    for sid in (0xbc, 0xbf, 0xf0, 0xf1, 0xf2, 0xf8, 0xff):
+        for np_ in (1, 2, 3):
+            variants.append(('plain', sid, None, None, 0, 'exact', 'ok', np_))
+        variants.append(('plain', sid, None, None, 0, 'zero', 'ok', 2))
+    for var in variants:
+        kind, sid, pts, dts, hl, lenk, dmg = var[:7]
+        npay = var[7] if len(var) > 7 else 7
         if kind == 'opt':
             nat = 0 if pts is None else (5 if dts is None else 10)
             hdr = tsref.pes_header(sid, 0, pts, dts, header_len=max(hl, nat))
@@ -391,7 +407,7 @@ def check_pesd(rep, prog):
             if cut not in (0, 1, 5, 6, 7, 8, 9) and not (len(hdr) - 6 <= cut <= len(hdr) + 1) and cut != len(full):
                 continue
             data = full[:cut]
-            inst = 'sid=%02x,pts=%s,dts=%s,hl=%d,len=%s,%s,cut=%d/%d' % (sid, pts is not None, dts is not None, hl, lenk, dmg, cut, len(full))
+            inst = 'sid=%02x,pts=%s,dts=%s,hl=%d,len=%s,%s,pay=%d,cut=%d/%d' % (sid, pts is not None, dts is not None, hl, lenk, dmg, npay, cut, len(full))
 
             def mk(data=data):
                 m = ghost.BlockMachine(prog, u, 'upipe_ts_pesd', {'next_uref_size': len(data), 'next_pes_size': 0, 'drop': 1, 'acquired': 0},
